@@ -87,7 +87,8 @@ def enc_zerv(s, v):
 # ---------------------------------------------------------------- random generation
 TEXTS = ["main", "feature/API-v2", "release/1.2", "Fix_007", "0051", "000", "0", "42", "4294967295", "4294967296", "18446744073709551616",
          "a.b..c", "--", "", "  ", "é", "fé/β", "ブランチ", "İx", "K", "a-0-00-0a", "UPPER.lower", "dev", "alpha", "post", "1.2.3", "v1",
-         "deadbeefcafe1234", "0123456789abcdef", "g1234567", "x" * 40, "00000000", "1e5", "+5", "-5", "a+b", "rc.1", "0x1F", "１２"]
+         "deadbeefcafe1234", "0123456789abcdef", "g1234567", "x" * 40, "00000000", "1e5", "+5", "-5", "a+b", "rc.1", "0x1F", "１２",
+         "#42", "(7)", "42.", "-1", ".9", "7-", " 8 ", "\t3"]
 
 
 def rand_text(rng):
